@@ -239,7 +239,34 @@ func behindExhaustiveSwitch(m *model.Model, fn *ssa.Function, b *ssa.BasicBlock)
 			continue
 		}
 		bo, ok := ifi.Cond.(*ssa.BinOp)
-		if !ok || bo.Op != token.EQL {
+		if !ok {
+			continue
+		}
+		// reached only for a value beyond the last enumerator: `if mode > ToPositiveInf { panic }`
+		ex := bo.X
+		if cv, isConv := ex.(*ssa.Convert); isConv {
+			ex = cv.X // int(z.mode) < len(table)
+		}
+		if _, isNamed := ex.Type().(*types.Named); isNamed && bo.Op != token.EQL {
+			if kk, okk := model.ConstInt(bo.Y); okk {
+				if all := enumConsts(m, ex.Type()); len(all) >= 2 {
+					max := all[len(all)-1]
+					edge := -1
+					switch {
+					case bo.Op == token.GTR && kk == max, bo.Op == token.GEQ && kk == max+1:
+						edge = 0
+					case bo.Op == token.LEQ && kk == max, bo.Op == token.LSS && kk == max+1:
+						edge = 1
+					}
+					if bt, isB := ex.Type().Underlying().(*types.Basic); edge >= 0 && isB && bt.Info()&types.IsUnsigned != 0 && all[0] == 0 {
+						if (gb.Succs[edge] == b && len(b.Preds) == 1) || m.EdgeDominates(gb, edge, b) {
+							return true, ex.Type().String()
+						}
+					}
+				}
+			}
+		}
+		if bo.Op != token.EQL {
 			continue
 		}
 		k, ok := model.ConstInt(bo.Y)
@@ -335,6 +362,9 @@ func runEnum(m *model.Model, s *ob.Set) {
 				}
 				nByField[fa.Field]++
 				if ok, why := enumValue(m, fn, st, st.Val, fa.Field, 5); !ok {
+					if al, isLocal := fa.X.(*ssa.Alloc); isLocal && enumLocalChecked(m, fn, al, fa.Field) {
+						continue // a scratch Decimal: its field is range-checked before the value leaves the function
+					}
 					byField[fa.Field] = append(byField[fa.Field], m.InstrPos(st)+": "+why)
 				}
 			}
@@ -380,7 +410,7 @@ func enumValue(m *model.Model, fn *ssa.Function, at *ssa.Store, v ssa.Value, fie
 			return ok, why
 		}
 	case *ssa.Call:
-		if cal := x.Call.StaticCallee(); cal != nil && m.InDecimalPkg(cal) && cal.Name() == "makeAcc" {
+		if cal := model.Unthunk(x.Call.StaticCallee()); cal != nil && m.InDecimalPkg(cal) && cal.Name() == "makeAcc" {
 			return true, ""
 		}
 	case *ssa.Parameter:
@@ -555,4 +585,134 @@ func enumTableLookup(m *model.Model, fn *ssa.Function, at *ssa.Store, v *ssa.UnO
 		}
 	}
 	return true, "", true
+}
+
+// enumLocalChecked: al is a Decimal local to fn (d := Decimal{...}) that is filled in first and
+// validated afterwards: every place where al is handed on whole — copied out (*z = d), passed to
+// a call, returned — lies behind an edge on which a load of al's field was found to be at most the
+// largest enumerator, and every store into that field (or of the whole value) comes before that
+// test. A local that is only copied into another local (the temporary of a composite literal)
+// hands the question on to that one.
+func enumLocalChecked(m *model.Model, fn *ssa.Function, al *ssa.Alloc, field int) bool {
+	return enumLocalCheckedD(m, fn, al, field, 3)
+}
+
+func enumLocalCheckedD(m *model.Model, fn *ssa.Function, al *ssa.Alloc, field int, depth int) bool {
+	ft := m.Decimal.Underlying().(*types.Struct).Field(field).Type()
+	all := enumConsts(m, ft)
+	if len(all) == 0 || al.Referrers() == nil || depth == 0 {
+		return false
+	}
+	max := all[len(all)-1]
+	var pubs []ssa.Instruction
+	var stores []ssa.Instruction
+	for _, r := range *al.Referrers() {
+		switch x := r.(type) {
+		case *ssa.DebugRef:
+			continue
+		case *ssa.Store:
+			if x.Addr == ssa.Value(al) {
+				stores = append(stores, x) // the whole value is (re)written
+			} else {
+				pubs = append(pubs, x)
+			}
+			continue
+		case *ssa.UnOp:
+			if x.Op == token.MUL && x.Referrers() != nil {
+				for _, u := range *x.Referrers() {
+					if st, ok := u.(*ssa.Store); ok && st.Val == ssa.Value(x) {
+						if al2, ok := st.Addr.(*ssa.Alloc); ok && al2 != al {
+							if !enumLocalCheckedD(m, fn, al2, field, depth-1) {
+								return false
+							}
+							continue
+						}
+					}
+					if _, ok := u.(*ssa.DebugRef); ok {
+						continue
+					}
+					pubs = append(pubs, u)
+				}
+				continue
+			}
+			pubs = append(pubs, r)
+			continue
+		}
+		fa, ok := r.(*ssa.FieldAddr)
+		if !ok {
+			pubs = append(pubs, r)
+			continue
+		}
+		if fa.Referrers() == nil {
+			continue
+		}
+		for _, u := range *fa.Referrers() {
+			switch x := u.(type) {
+			case *ssa.Store:
+				if x.Addr != ssa.Value(fa) {
+					pubs = append(pubs, x) // the address of the field is stored somewhere
+				} else if fa.Field == field {
+					stores = append(stores, x)
+				}
+			case *ssa.UnOp:
+				if x.Op != token.MUL {
+					pubs = append(pubs, x)
+				}
+			case *ssa.DebugRef:
+			default:
+				pubs = append(pubs, u)
+			}
+		}
+	}
+	for _, p := range pubs {
+		okP := false
+		for _, gb := range fn.Blocks {
+			if len(gb.Instrs) == 0 {
+				continue
+			}
+			ifi, ok := gb.Instrs[len(gb.Instrs)-1].(*ssa.If)
+			if !ok {
+				continue
+			}
+			bo, ok := ifi.Cond.(*ssa.BinOp)
+			if !ok {
+				continue
+			}
+			ld, ok := bo.X.(*ssa.UnOp)
+			if !ok || ld.Op != token.MUL {
+				continue
+			}
+			fa, ok := ld.X.(*ssa.FieldAddr)
+			if !ok || fa.X != ssa.Value(al) || fa.Field != field {
+				continue
+			}
+			k, ok := model.ConstInt(bo.Y)
+			if !ok {
+				continue
+			}
+			edge := -1
+			switch {
+			case bo.Op == token.GTR && k == max, bo.Op == token.GEQ && k == max+1:
+				edge = 1
+			case bo.Op == token.LEQ && k == max, bo.Op == token.LSS && k == max+1:
+				edge = 0
+			}
+			if edge < 0 || !m.EdgeDominates(gb, edge, p.Block()) {
+				continue
+			}
+			before := true
+			for _, st := range stores {
+				if !m.InstrDominates(st, ld) {
+					before = false
+				}
+			}
+			if before {
+				okP = true
+			}
+		}
+		if !okP {
+			return false
+		}
+	}
+	return true
 }
